@@ -78,6 +78,7 @@ def check(run):
                     'the regex crate executing the generated patterns as written, and longest-match / priority as implemented by lalrpop_util (trusted; whole-token behaviour is C03 engine L)',
                     'layouts with NO separator between two tokens (the statement\'s "or no separator where the lexer does not need one") - only natively, with `/**/`',
                     'annotations written on a forward-declared parcelable are not kept (the statement lists forward declarations by name and order only)',
+                    'annotation parameters are kept as a key -> value map: the order of parameters and repeated keys (`@A(k=1, k=2)`) are not part of what is compared',
                     'attached documentation (C18) and positions (C04)']
     run.assumptions += ['std: to_owned / to_string / into / clone are identity on text; Vec::push appends; vec![..] / Vec::from keep order; into_iter().flatten().collect() keeps the Some elements in order; '
                         '[&str]::join and format! concatenate; str::rsplit_once splits at the last occurrence',
